@@ -164,6 +164,17 @@ Definition unit_frontends (npips : list N) (u : unit_) : list (fkey * fval) :=
                             mkfv u (flag (s_extlocal s) FLG_EXT_LOCAL + flag (s_intlocal s) FLG_INT_LOCAL)))
                  (filter (fun a => negb (s_intlocal s && (a =? podNP))) npips)).
 
+(* Maglev lookup table of a service: written for the service itself when it carries the maglev
+   annotation (per-remote-node units never do: remote_svc clears it) and has a ready endpoint; `lutf` is the consistent-hash table (felix/bpf/consistenthash,
+   property C33) as an explicit parameter: ready endpoints -> ordinal -> backend *)
+Definition nrange (n : N) : list N := map N.of_nat (seq 0 (N.to_nat n)).
+Definition unit_maglev (lut : N) (lutf : list ep -> N -> bval) (u : unit_) : list (bkey * bval) :=
+  if s_maglev (u_svc u) && negb (u_count u =? 0)
+  then map (fun j => ((u_id u, j), lutf (filter e_ready (u_eps u)) j)) (nrange lut)
+  else [].
+Definition desired_mg (lut : N) (lutf : list ep -> N -> bval) (us : list unit_) : bemap :=
+  of_list pair_eqb (flat_map (unit_maglev lut lutf) us).
+
 (* ------------------------------------------------------------------ Syncer state, id assignment *)
 Definition pkey := (N * N)%type.   (* service name, node (0 = the service itself) *)
 Definition prevmap := list (pkey * (N * svc)).
